@@ -419,6 +419,14 @@ void h_gp_assign(void) {
   else { struct guard* r = gp_move_assign(&g, &g);
     XV_OBL("stamp.region.balanced", r == &g && g.ptr == g0 && BALANCED(re, 0, 0) && td_enter_n == 0 && td_leave_n == 0); XV_CANARY("gp_move_assign.self"); }
 }
+void h_region_guard(void) {
+  struct guard g, o; guard_pre(&g, &o); unsigned re = xv_td.region_entries;
+  sg_rg_ctor();
+  XV_OBL("stamp.region.balanced", xv_td.region_entries == re + 1 && td_enter_n == 1 && td_leave_n == 0);
+  sg_rg_dtor();
+  XV_OBL("stamp.region.balanced", xv_td.region_entries == re && td_enter_n == 1 && td_leave_n == 1 && !td_leave_bad && g.ptr == g.ptr);
+  XV_CANARY("region_guard.done");
+}
 void h_gp_reset(void) {
   struct guard g, o; guard_pre(&g, &o); unsigned re = xv_td.region_entries; mptr g0 = g.ptr;
   gp_reset(&g);
